@@ -751,7 +751,7 @@ func init() { Table["C19"] = C19 }
 
 func C19(rc *vk.Rec) {
 	phase := "c19"
-	n := rc.N(6000, 400000)
+	n := rc.N(6000, 300000)
 	for idx := int64(0); idx < int64(n); idx++ {
 		if rc.SkipCase(phase, idx) {
 			continue
